@@ -64,6 +64,11 @@ Definition verify_advance (cps : list cp) (cur : cursor) (h : Z) (i : N) : vres 
     else VErr
   end.
 
+(* fc399a8 / a26f54a: a stored NON-ORPHAN header at the height of ANY configured checkpoint (passed or still ahead) whose hash
+   differs from that checkpoint (SyncManager.contradictedCheckpoint, checkpoint.Contradicts) *)
+Definition contradicts (cps : list cp) (x : hstate) (h : Z) (i : N) : bool :=
+  negb (st_eqb x Orphan) && existsb (fun c => (fst c =? h) && negb (N.eqb (snd c) i)) cps.
+
 (* ---------------- reads of the header service used by both engines ---------------- *)
 Definition tip_height (s : store) : Z := match tipB s with Some t => height t | None => 0 end.
 
